@@ -48,9 +48,26 @@ def ext_try_into(it, fn, args, dty, sg, cons, excl, depth):
     src, dst = g
     if fn["path"] == "std::convert::TryFrom::try_from":
         dst, src = g
+    INT = {"u8": (8, False), "u16": (16, False), "u32": (32, False), "u64": (64, False), "usize": (64, False), "u128": (128, False),
+           "i8": (8, True), "i16": (16, True), "i32": (32, True), "i64": (64, True), "isize": (64, True), "i128": (128, True)}
+    if src not in INT or dst not in INT:
+        return None
+    (sw, ss), (dw, ds) = INT[src], INT[dst]
+    a = args[0]
+    if dst != "u32" and isinstance(a, BV) and dw >= sw and dw <= 64:
+        if ss and not ds:
+            # signed -> unsigned of at least the same width: succeeds exactly for non-negative values
+            name = a.whole_var()
+            if name is None:
+                raise LeaveDomain("sign check on a value that is not the whole seconds count: %r" % (a,))
+            return [
+                (sg, cons + [(name, "Ge", 0, True)], excl, _res("Ok", cast_int(a, dw, False))),
+                (sg, cons + [(name, "Ge", 0, False)], excl, _res("Err", Opaque("TryFromIntError"))),
+            ]
+        if ss == ds or (not ss and ds and dw > sw):
+            return [(sg, cons, excl, _res("Ok", cast_int(a, dw, ds)))]      # widening: always succeeds
     if dst != "u32" or src not in ("u64", "i64", "u128", "i128", "usize", "isize"):
         return None
-    a = args[0]
     if not isinstance(a, BV):
         raise LeaveDomain("try_into on %r" % (a,))
     name = a.whole_var()
